@@ -61,7 +61,7 @@ func VerifH_C19_ReserveDone() {
 // upstream exchange; concurrent hits start at most one refresh; success replaces the entry, failure keeps it.
 func VerifH_C19_HitPath() {
 	verifrt.Unwind(120)
-	verifrt.SchedBound(1)
+	verifrt.SchedBound(1 + verifrt.Tier) // thorough: one more deviation from the default schedule
 	verifrt.CtxNoExpiry = true
 	up := &vUpstream{tag: "up", maxRecs: 1, fixedTTL: true}
 	uw := &upstreamWrapper{tag: "up", u: up}
@@ -200,7 +200,7 @@ func (u *vStartGate) ExchangeContext(ctx context.Context, q []byte) (*dnsmsg.Msg
 
 func VerifH_C19_ConcurrentHits() {
 	verifrt.Unwind(200)
-	verifrt.SchedBound(2)
+	verifrt.SchedBound(2 + verifrt.Tier) // thorough: one more deviation from the default schedule
 	verifrt.PreemptSync()
 	verifrt.CtxNoExpiry = true
 	up := &vStartGate{vGatedUpstream: vGatedUpstream{gate: make(chan struct{})}}
@@ -271,7 +271,7 @@ func (u *vHoldFirst) ExchangeContext(ctx context.Context, q []byte) (*dnsmsg.Msg
 // never more than one exchange for this question is pending in the background.
 func VerifH_C19_SingleFlightAcrossExpiry() {
 	verifrt.Unwind(400)
-	verifrt.SchedBound(1)
+	verifrt.SchedBound(1 + verifrt.Tier) // thorough: one more deviation from the default schedule
 	verifrt.NoTimers()
 	verifrt.CtxNoExpiry = true
 	base := time.Unix(1700000000, 0)
